@@ -159,6 +159,9 @@ def iban_shard(args):
             for text in (base.lower(), " ".join(base[i:i + 4] for i in range(0, len(base), 4)).lower(),
                          base[:4] + base[4:].lower(), base.swapcase()):
                 run_text(text, "spelling")
+        if f == "distinct":
+            for lab, b, _ in families.small_field_bodies(c, body):
+                run_text(bases.iban_text(country, b), lab)
         if f in ("distinct", "max"):
             for fam, text in families.iban_lengths(base):
                 run_text(text, fam)
